@@ -18,7 +18,7 @@ from vlib.core import Stage, fail
 ID = "C08"
 MANIFEST = {
     "category": "exploration",
-    "text": "Generated-input search: Boolean expressions over up to 6 format-constraint keys (n-ary U/O/X, nesting, every operator spelling, whitespace, redundant brackets) x all 2^n truth assignments, through evaluate_format_constraint_tree, format_constraint_evaluation with DictBasedFcEvaluator with a plain FcEvaluator subclass (sync and async evaluate_ methods returning (False, None)) and with one whose coroutines really suspend and complete in reverse order. The result must equal the Boolean value of the AST and carry an error message iff it is unfulfilled; None and '' must give (True, None).",
+    "text": "Generated-input search: Boolean expressions over up to 6 format-constraint keys (n-ary U/O/X, nesting, every operator spelling, whitespace, redundant brackets) x all 2^n truth assignments, through evaluate_format_constraint_tree, format_constraint_evaluation with DictBasedFcEvaluator with a plain FcEvaluator subclass (sync and async evaluate_ methods returning (False, None)) and with one whose coroutines really suspend and complete in reverse order. The result must equal the Boolean value of the AST and carry an error message iff it is unfulfilled; None and '' must give (True, None). The Boolean clause is additionally checked on two routes (tree evaluator with hand-made nodes, dict based evaluator) where a subset of the unfulfilled constraints carries no error message at all.",
     "note": "Trusted: ref.bool_eval and the generator. Precondition of the statement is built into the generator: unfulfilled single constraints carry a message (or get the default one), fulfilled ones carry none. Bounded: <= 12/24 atoms, <= 6 keys. Process configuration by shard (vlib/sut.py; recorded in replay files): plain / parse caches preheated beyond their size / warnings attributed to ahbicht raised as errors / logging fully enabled with every record rendered.",
     "technique": "property-based testing against a Boolean reference evaluator, exhaustive over truth assignments per expression",
 }
@@ -125,6 +125,20 @@ def check(case):
         routes.append(("plain-evaluator", sut.call(api.format_constraint_evaluation, text), "format_constraints_fulfilled"))
         sut.configure(_plain_evaluator(truth, yielding=True))
         routes.append(("yielding-evaluator", sut.call(api.format_constraint_evaluation, text), "format_constraints_fulfilled"))
+        # the Boolean clause is unconditional: the same again with unfulfilled constraints that carry no message at all
+        # (what DictBasedFcEvaluator / ContentEvaluationResult based evaluators deliver for {"901": False}-style data);
+        # a drawn subset of the unfulfilled keys stays silent, the message clause does not apply to these two routes
+        silent = {k for i, k in enumerate(sorted(truth)) if not truth[k] and (i + len(truth)) % 2 == 0} or {k for k in truth if not truth[k]}
+        quiet_inputs = {k: EvaluatedFormatConstraint(v, None if (v or k in silent) else f"E{k}") for k, v in truth.items()}
+        quiet = [("tree, silent unfulfilled constraints", sut.call(api.evaluate_format_constraint_tree, parsed.value, quiet_inputs), "format_constraint_fulfilled")]
+        sut.setup_hardcoded(sut.make_cer(fc={k: (v if (v or k not in silent) else [False, None]) for k, v in truth.items()}))
+        quiet.append(("dict-evaluator, silent unfulfilled constraints", sut.call(api.format_constraint_evaluation, text), "format_constraints_fulfilled"))
+        for name, res, attr in quiet:
+            if not res.ok:
+                fail("raises", f"{name}: {text!r} under {truth} (no message for {sorted(silent)}) raised {res!r}")
+            if _verdict(res.value, attr)[0] is not expected:
+                fail("boolean-value", f"{name}: {text!r} under {truth} (no message for {sorted(silent)}) = {_verdict(res.value, attr)[0]!r}, "
+                     f"Boolean evaluation gives {expected}")  # fmt: skip
         for name, res, attr in routes:
             if not res.ok:
                 fail("raises", f"{name}: {text!r} under {truth} raised {res!r}")
